@@ -231,6 +231,14 @@ def roundtrip(ctx, tmp, representable):
         fn = os.path.join(tmp, f"f_{rep}.vtk")
         what = {"representation": rep, **what0}
         try:
+            if rng.random() < 0.3:
+                # history: the file name was used before, for a field on another mesh with
+                # a subregion of its own
+                old_mesh = df.Mesh(p1=(0, 0, 0), p2=(2, 2, 2), n=(2, 2, 2),
+                                   subregions={"old": df.Region(p1=(0, 0, 0), p2=(1, 2, 2))})
+                df.Field(old_mesh, nvdim=1, value=1.0).to_file(fn, representation=rep)
+                what["file_name_used_before"] = True
+                ctx.event("roundtrip.file_name_reused")
             how = gen.pick(rng, ["bin", "bin8", "default", "positional"]) if rep == "bin" else rep
             if how == "default":      # the documented default of to_file is the binary form
                 f.to_file(fn)
